@@ -21,8 +21,9 @@ import (
 // one side only put the digit count below / at / above each margin; up to three auxiliary primes.
 func marginShapes() []shape {
 	manyQ := func(bits, n int) []uint64 { return ref.PrimesNear(uint64(1)<<bits, 1<<6, n, true) }
-	p61 := ref.PrimesNear(uint64(1)<<61, 1<<6, 15, true)
+	p61 := ref.PrimesNear(uint64(1)<<61, 1<<6, 19, true)
 	return []shape{
+		{"q16x61-p61", 4, p61[3:19], p61[:3]}, // 8 digits with two auxiliary primes: the full (not halved) margin of 61-bit primes
 		{"q10x30-p61", 4, manyQ(30, 10), p61[:3]},
 		{"q12x45-p61", 4, manyQ(45, 12), p61[:3]},
 		{"q8x61-p61", 4, p61[3:11], p61[:3]},
@@ -43,7 +44,10 @@ func marginScenarios(tier string) []engine.Scenario {
 					if tier != "thorough" && !(full || (m.name == "q12x61-p61" && lp == np-1 && np >= 2) || (lq == top && np == 3)) {
 						continue
 					}
-					scs = append(scs, extProdScenario(epConfig{m, np, lq, lp, 0, true, !(full && np == 2)}))
+					if m.name == "q16x61-p61" && !(np == 2 && lp == 1 && lq >= top-3) {
+						continue // 16 primes: only the 7- and 8-digit configurations of the multiple-P path
+					}
+					scs = append(scs, extProdScenario(epConfig{m, np, lq, lp, 0, true, !(full && np == 2) || len(m.q) > 12}))
 				}
 			}
 		}
@@ -178,7 +182,7 @@ func levelMismatchScenarios(tier string) []engine.Scenario {
 			}
 		}
 	}
-	for _, m := range ms[2:] { // 61-bit chains: digit counts at the RGSW level against the margin, data above
+	for _, m := range ms[3:] { // 61-bit chains: digit counts at the RGSW level against the margin, data above
 		for np := 2; np <= 3; np++ {
 			cfgs = append(cfgs, cfg{m, np, 3, np - 1, 0, len(m.q) - 1}, cfg{m, np, len(m.q) - 2, np - 1, 0, len(m.q) - 1})
 		}
@@ -264,6 +268,6 @@ func historyScenarios(tier string) []engine.Scenario {
 	for np := 0; np <= 2; np++ {
 		scs = append(scs, historyScenario(sh[4], np), historyScenario(sh[0], np))
 	}
-	scs = append(scs, historyScenario(ms[2], 3), historyScenario(ms[0], 2))
+	scs = append(scs, historyScenario(ms[3], 3), historyScenario(ms[1], 2))
 	return scs
 }
